@@ -1151,8 +1151,21 @@ class Fxp():
         return val
 
     def _round(self, val, method='floor'):
-        if isinstance(val, int) or np.issubdtype(np.array(val).dtype, np.integer) or np.issubdtype(np.array(val).dtype, np.object_):
+        if isinstance(val, int) or np.issubdtype(np.array(val).dtype, np.integer):
             rval = val
+        elif np.issubdtype(np.array(val).dtype, np.object_):
+            # Python numbers (values beyond 64 bits take this path, together with the other elements of
+            # their array): integers are exact already, the others are rounded one by one
+            py_round = {'around': round, 'floor': math.floor, 'ceil': math.ceil, 'fix': math.trunc, 'trunc': math.trunc}.get(method)
+            if py_round is None:
+                rval = val
+            else:
+                def _one(v):
+                    if isinstance(v, (float, np.floating)) and math.isfinite(v):
+                        return py_round(v)
+                    return v
+                arr = np.array(val, dtype=object)
+                rval = np.array([_one(v) for v in arr.flat] + [None], dtype=object)[:-1].reshape(arr.shape)
         elif method == 'around':
             rval = np.around(val)
         elif method == 'floor':
